@@ -10,7 +10,7 @@ META = dict(
 
 
 def run(chk):
-    t = facework.run(chk, 'C01', {'fuzz': (300, 100000), 'sweep': (2400, 80000), 'field': (2400, 80000), 'random': (1200, 60000), 'trunc': (300, 8000),
+    t = facework.run(chk, 'C01', {'fuzz': (300, 100000), 'sweep': (2400, 80000), 'field': (2400, 80000), 'rel': (2400, 80000), 'random': (1200, 60000), 'trunc': (300, 8000),
                                   'dir': (300, 8000), 'hostile': (200, 4000)})
     if chk.tier == 'thorough':
         from .. import fuzzwork
